@@ -35,6 +35,10 @@ structure OptMon where
   last : List (Nat × LastEv) := []          -- per thread
   pendXE : List (Nat × Nat × Nat) := []     -- (thread, lock, expected new version)
   pubs : List (Nat × List Nat) := []        -- per lock: versions published by X-ends, oldest first
+  /-- per lock, parallel to `pubs`: the published value had been requested through SetVersion -/
+  expl : List (Nat × List Bool) := []
+  /-- every value passed to SetVersion so far -/
+  explicitVals : List Nat := []
   recs : List OptRec := []
   nStores : Nat := 0
   nChecksOk : Nat := 0
@@ -45,13 +49,17 @@ structure OptMon where
   nXB : Nat := 0
   deriving Repr
 
+/-- the first violation of every category (text before the first colon) is kept, joined by ` || ` -/
 def OptMon.flag (s : OptMon) (msg : String) : OptMon :=
   match s.bad with
-  | some _ => s
+  | some b =>
+    if (b.splitOn " || ").any (fun m => (m.splitOn ":").headD "" == (msg.splitOn ":").headD "") then s
+    else { s with bad := some (b ++ " || " ++ msg) }
   | none => { s with bad := some msg }
 
 def OptMon.lastOf (s : OptMon) (tid : Nat) : LastEv := ((s.last.find? (·.1 == tid)).map (·.2)).getD {}
 def OptMon.pubsOf (s : OptMon) (lk : Nat) : List Nat := ((s.pubs.find? (·.1 == lk)).map (·.2)).getD []
+def OptMon.explOf (s : OptMon) (lk : Nat) : List Bool := ((s.expl.find? (·.1 == lk)).map (·.2)).getD []
 
 /-- an atomic event on lock word `L<lk>` -/
 def optEvent (s : OptMon) (tid : Nat) (op loc : String) (rd wr : Nat) (ok : Bool) : OptMon :=
@@ -65,7 +73,8 @@ def optEvent (s : OptMon) (tid : Nat) (op loc : String) (rd wr : Nat) (ok : Bool
       match s.pendXE.find? (fun p => p.1 == tid && p.2.1 == lk) with
       | some (_, _, exp) =>
         let s := { s with pendXE := s.pendXE.filter (fun p => !(p.1 == tid && p.2.1 == lk)),
-                          pubs := (s.pubs.filter (·.1 != lk)) ++ [(lk, s.pubsOf lk ++ [wVer wr])] }
+                          pubs := (s.pubs.filter (·.1 != lk)) ++ [(lk, s.pubsOf lk ++ [wVer wr])],
+                          expl := (s.expl.filter (·.1 != lk)) ++ [(lk, s.explOf lk ++ [s.explicitVals.contains (wVer wr)])] }
         let s := if wVer wr != exp then
             s.flag s!"verdisc: the exclusive section ended by thread {tid} published version {wVer wr}, requested {exp}" else s
         if wX wr || wS wr != 0 then
@@ -109,15 +118,20 @@ def optTok (s : OptMon) (tid : Nat) (tok : String) : OptMon :=
   else s
 
 /-- soundness of a successful check on the record `r`: some exclusive section ended since the version
-    was obtained, and none of them republished the carried version -/
+    was obtained, and the carried version was not republished *through SetVersion*: a window in which the version
+    recurs is tolerated only if some publication in it had been requested by the client (the property's premise
+    "SetVersion is not used to republish an earlier value" is then the client's business); default increments alone
+    cannot make a version recur -/
 def commitInWindow (s : OptMon) (r : OptRec) : Bool :=
   let since := (s.pubsOf r.lk).drop r.idx
-  !since.isEmpty && !since.contains r.ver
+  let sinceExpl := (s.explOf r.lk).drop r.idx
+  !since.isEmpty && (!since.contains r.ver || !sinceExpl.any id)
 
 /-- results of the optimistic instructions; `a` = first variable argument, `b` = second -/
 def optRes (s : OptMon) (tid : Nat) (opName : String) (a b : Nat) (res : String) : OptMon :=
   let e := s.lastOf tid
-  if opName == "getver" then
+  if opName == "setver" then { s with explicitVals := s.explicitVals ++ [b % 2 ^ 32] }
+  else if opName == "getver" then
     match hexNat res with
     | some v =>
       let s := if e.op != "load" || wX e.rd || wVer e.rd != v then
@@ -134,15 +148,18 @@ def optRes (s : OptMon) (tid : Nat) (opName : String) (a b : Nat) (res : String)
           else
           let s := { s with nChecksOk := s.nChecksOk + 1 }
           let s := if wX e.rd || wVer e.rd != r.ver then
-              s.flag s!"version: VerifyVersion succeeded on word {e.rd} while the guard carried version {r.ver}" else s
+              s.flag (s!"version: VerifyVersion succeeded on word {e.rd} while the guard carried version {r.ver}" ++
+                (if opName == "cverify" then " [composite guard]" else "")) else s
           let s := if !((s.pubsOf r.lk).drop r.idx).isEmpty then { s with nChecksAcrossCommit := s.nChecksAcrossCommit + 1 } else s
           if commitInWindow s r then
-            s.flag s!"version: VerifyVersion succeeded although an exclusive section was committed since version {r.ver} was obtained (published since: {(s.pubsOf r.lk).drop r.idx})"
+            s.flag (s!"version: VerifyVersion succeeded although an exclusive section was committed since version {r.ver} was obtained (published since: {(s.pubsOf r.lk).drop r.idx})" ++
+              (if opName == "cverify" then " [composite guard]" else ""))
           else s
         else
           let s := { s with nChecksFail := s.nChecksFail + 1 }
           let s := if wVer e.rd == r.ver then
-              s.flag s!"version: VerifyVersion failed although the lock still has version {r.ver}" else s
+              s.flag (s!"version: VerifyVersion failed although the lock still has version {r.ver}" ++
+                (if opName == "cverify" then " [composite guard]" else "")) else s
           let s := if newv != wVer e.rd then
               s.flag s!"version: after a failed check the guard carries {newv}, the lock had {wVer e.rd}" else s
           { s with recs := (s.recs.filter (·.var != a)) ++ [{ r with ver := newv, idx := (s.pubsOf r.lk).length }] }
